@@ -1043,6 +1043,14 @@ def workload(run):
                     continue
                 if kind.may_refuse_nonsimilarity and not (props(A)[1] == props(B)[1] == "yes"):
                     continue
+                dd = kind.dim
+                acc = abs(np.linalg.det(np.dot(B, A)[:dd, :dd])) ** (1.0 / dd)
+                if not (1e-4 <= acc <= 1e4):
+                    # two extreme similarities in a row: a unit primitive ends up with extent 1e-6,
+                    # below what the library's documented absolute merge tolerance (tol.merge =
+                    # 1e-8) lets a regenerated tessellation keep apart.  Out of regime, not judged.
+                    run.skip("composition with accumulated scale outside [1e-4, 1e4]")
+                    continue
                 check_compose(run, kind, ta, A, tb, B, rng)
             # apply_scale / apply_translation build their own matrices
             d = kind.dim
